@@ -31,7 +31,13 @@ Definition depolarizingF (p : float) : fdist := let t := p / 3 in of_xyzF t t t.
 Definition bit_flipF (p : float) : fdist := (1 - sum_f00 p, p, 0, 0).
 Definition phase_flipF (p : float) : fdist := (1 - sum_00f p, 0, 0, p).
 Definition bit_phase_flipF (p : float) : fdist := (1 - sum_0f0 p, 0, p, 0).
+(* since /repo commit 570530b ("fix: ... Pr(I) = 1 - p"): p_i = 1 - probability *)
 Definition biasedF (b : float) (a : axis) (p : float) : fdist :=
+  let lr := 1 / (2 * (b + 1)) * p in
+  let hr := b / (b + 1) * p in
+  match a with AX => (1 - p, hr, lr, lr) | AY => (1 - p, lr, hr, lr) | AZ => (1 - p, lr, lr, hr) end.
+(* the formula before that fix (p_i = 1 - sum((p_x, p_y, p_z))), kept to document defect F2 *)
+Definition biasedF_before_fix (b : float) (a : axis) (p : float) : fdist :=
   let lr := 1 / (2 * (b + 1)) * p in
   let hr := b / (b + 1) * p in
   match a with AX => of_xyzF hr lr lr | AY => of_xyzF lr hr lr | AZ => of_xyzF lr lr hr end.
@@ -41,9 +47,11 @@ Definition feq4 (u v : fdist) : bool :=
   (a =? a') && (b =? b') && (c =? c') && (d =? d').
 Definition negI (u : fdist) : bool := let '(a, _, _, _) := u in a <? 0.
 
-(* defect F2, reproduced bit for bit: bias 0.001 towards Y at p = 1 gives Pr(I) = -2^-52 *)
+(* defect F2 (repaired in /repo by 570530b), reproduced bit for bit on the old formula: bias 0.001 towards Y at
+   p = 1 gave Pr(I) = -2^-52; the repaired formula gives exactly 0 *)
 Lemma F2_reproduced :
-  feq4 (biasedF 0x1.0624dd2f1a9fcp-10 AY 1)
+  feq4 (biasedF_before_fix 0x1.0624dd2f1a9fcp-10 AY 1)
        ((-0x1p-52)%float, 0x1.ff7d0f16c2e0ap-2, 0x1.05e1d27a3ee9dp-10, 0x1.ff7d0f16c2e0ap-2) = true
-  /\ negI (biasedF 0x1.0624dd2f1a9fcp-10 AY 1) = true.
-Proof. split; vm_compute; reflexivity. Qed.
+  /\ negI (biasedF_before_fix 0x1.0624dd2f1a9fcp-10 AY 1) = true
+  /\ negI (biasedF 0x1.0624dd2f1a9fcp-10 AY 1) = false.
+Proof. repeat split; vm_compute; reflexivity. Qed.
